@@ -746,7 +746,11 @@ TOP:
 				}
 			}
 		case method != nil:
-			args := root.formReflectArgs(ov, vars, field)
+			args, ea2 := root.formReflectArgs(ov, vars, field, fd)
+			if 0 < len(ea2) {
+				ea = append(ea, ea2...)
+				break
+			}
 			mva := fd.method.Call(args)
 			switch len(mva) {
 			case 1:
@@ -764,23 +768,76 @@ TOP:
 	return
 }
 
-func (root *Root) formReflectArgs(ov reflect.Value, vars map[string]interface{}, field *Field) (args []reflect.Value) {
-	args = make([]reflect.Value, 0, len(field.Args)+1)
-	args = append(args, ov)
-	// Build the args by combining provided args and variable values as
-	// appropriate.
-	fa := field.Args
-	if field.sorted != nil {
-		fa = field.sorted
+func (root *Root) formReflectArgs(
+	ov reflect.Value,
+	vars map[string]interface{},
+	field *Field,
+	fd *FieldDef) (args []reflect.Value, ea []error) {
+
+	mt := fd.method.Type()
+	if mt.IsVariadic() || mt.NumIn() != len(fd.args.list)+1 {
+		return nil, []error{resWarn(field.line, field.col,
+			"the method for %s takes %d arguments but the field has %d", field.Name, mt.NumIn()-1, len(fd.args.list))}
 	}
-	for _, av := range fa {
-		if vr, ok := av.Value.(Var); ok && vars != nil {
-			args = append(args, reflect.ValueOf(vars[string(vr)]))
-		} else {
-			args = append(args, reflect.ValueOf(av.Value))
+	args = make([]reflect.Value, 0, mt.NumIn())
+	args = append(args, ov)
+	// Build the args in the order of the field definition by combining
+	// provided args and variable values as appropriate. Values are coerced
+	// to the argument type and then converted to the type of the method
+	// parameter. Arguments not provided are the zero value for the parameter.
+	for i, a := range fd.args.list {
+		pt := mt.In(i + 1)
+		var v interface{}
+		if av := field.getArg(a.N); av != nil {
+			var ea2 []error
+			v, ea2 = root.replaceArgVars(vars, av.Value, a.Type)
+			Errors(ea2).in(av.Arg)
+			ea = append(ea, ea2...)
+		} else if _, ok := a.Type.(*NonNull); ok {
+			ea = append(ea, resWarn(field.line, field.col, "%s is required but missing", a.N))
 		}
+		rv, err := reflectArg(v, pt)
+		if err != nil {
+			ea = append(ea, resWarn(field.line, field.col, "%s for argument %s", err, a.N))
+			rv = reflect.Zero(pt)
+		}
+		args = append(args, rv)
 	}
 	return
+}
+
+// reflectArg converts a coerced argument value to a value that can be passed
+// as a method parameter of type pt.
+func reflectArg(v interface{}, pt reflect.Type) (rv reflect.Value, err error) {
+	if IsNil(v) {
+		return reflect.Zero(pt), nil
+	}
+	rv = reflect.ValueOf(v)
+	vt := rv.Type()
+	if vt.AssignableTo(pt) {
+		return rv, nil
+	}
+	isNum := func(k reflect.Kind) bool {
+		switch k {
+		case reflect.Int, reflect.Int8, reflect.Int16, reflect.Int32, reflect.Int64,
+			reflect.Uint, reflect.Uint8, reflect.Uint16, reflect.Uint32, reflect.Uint64,
+			reflect.Float32, reflect.Float64:
+			return true
+		}
+		return false
+	}
+	switch {
+	case isNum(vt.Kind()) && isNum(pt.Kind()):
+		cv := rv.Convert(pt)
+		// Make sure the value survives the conversion.
+		if back := cv.Convert(vt); back.Interface() == v {
+			return cv, nil
+		}
+	case vt.Kind() == reflect.String && pt.Kind() == reflect.String,
+		vt.Kind() == reflect.Bool && pt.Kind() == reflect.Bool:
+		return rv.Convert(pt), nil
+	}
+	return rv, fmt.Errorf("%w a %T into a %s", ErrCoerce, v, pt)
 }
 
 func (root *Root) resolveInline(
